@@ -11,7 +11,8 @@ import (
 
 var dwaACK = struct{}{}
 
-// handleDWA handles Device-Watchdog-Answer messages.
+// handleDWA handles Device-Watchdog-Answer messages. With a nil dwac the
+// acknowledgement goes to the watchdog of the connection the answer arrived on.
 func handleDWA(sm *StateMachine, dwac chan struct{}) diam.HandlerFunc {
 	return func(c diam.Conn, m *diam.Message) {
 		dwa := new(smparser.DWA)
@@ -25,6 +26,17 @@ func handleDWA(sm *StateMachine, dwac chan struct{}) diam.HandlerFunc {
 		}
 		if dwa.ResultCode != diam.Success {
 			return
+		}
+		// The handler is shared by all connections of the state machine:
+		// without a channel of its own it acknowledges to the watchdog of
+		// the connection the DWA arrived on.
+		dwac := dwac
+		if dwac == nil {
+			st := clientConnStateOf(c)
+			if st == nil || st.dwac == nil {
+				return
+			}
+			dwac = st.dwac
 		}
 		select {
 		case dwac <- dwaACK:
